@@ -273,7 +273,15 @@ func (condMachine) Apply(hh Handle, _ string, c Call) (ret []string) {
 	sub := func(k string) map[string]any { m, _ := c[k].(map[string]any); return m }
 	switch c.Op() {
 	case "Init":
+		// Init REPLACES the instance behind this handle (the documented way to reuse one variable): a copy of the handle
+		// taken before keeps showing the old instance, untouched
+		before := h.c
+		kw0, op0, ex0, str0, init0 := before.Keyword(), before.Operator(), before.Expression(), before.String(), before.IsInit()
 		h.c.Init()
+		if init0 && (before.Keyword() != kw0 || before.String() != str0 || !before.IsInit() ||
+			fmt.Sprintf("%T %v", before.Operator(), before.Operator()) != fmt.Sprintf("%T %v", op0, op0) || ProjEx(before.Expression()) != ProjEx(ex0)) {
+			ret = append(ret, "INIT-WIPED-OTHER-HANDLES")
+		}
 	case "Cond":
 		h.c = stackage.Cond(concKw(sub("k")), ConcOp(c.Str("o")), ConcEx(c.Str("x")))
 	case "SetKeyword":
